@@ -6,6 +6,7 @@ package main
 import (
 	"fmt"
 	"regexp"
+	"strings"
 )
 
 var i32 = TyD{K: "base", Base: "i32"}
@@ -84,6 +85,14 @@ func dropDecl(p *ProgD, fi int, name string) {
 		}
 		return t
 	})
+	for a := range p.Files {
+		for b := range p.Files[a].Decls {
+			d := &p.Files[a].Decls[b]
+			if d.ValDecl == name && d.ValFile == fi {
+				d.ValDecl, d.ValFile = "", 0
+			}
+		}
+	}
 	f := &p.Files[fi]
 	for i := range f.Decls {
 		if f.Decls[i].Name == name {
@@ -124,6 +133,12 @@ func dropEdge(p *ProgD, from, to int) {
 			s.ExtFile, s.ExtName = -1, ""
 		}
 	}
+	for b := range p.Files[from].Decls {
+		d := &p.Files[from].Decls[b]
+		if d.ValDecl != "" && d.ValFile == to {
+			d.ValDecl, d.ValFile = "", 0
+		}
+	}
 	inc := p.Files[from].Includes
 	for i := range inc {
 		if inc[i] == to {
@@ -159,6 +174,11 @@ func compact(p *ProgD) {
 		for k := range p.Files[fi].Services {
 			if e := p.Files[fi].Services[k].ExtFile; e >= 0 {
 				p.Files[fi].Services[k].ExtFile = newIdx[e]
+			}
+		}
+		for k := range p.Files[fi].Decls {
+			if p.Files[fi].Decls[k].ValDecl != "" {
+				p.Files[fi].Decls[k].ValFile = newIdx[p.Files[fi].Decls[k].ValFile]
 			}
 		}
 	}
@@ -241,6 +261,9 @@ func candidates(cs *Case) []func(c *Case) {
 			if d.Comment != "" {
 				add(func(c *Case) { c.Prog.Files[fi].Decls[di].Comment = "" })
 			}
+			if d.ValDecl != "" {
+				add(func(c *Case) { c.Prog.Files[fi].Decls[di].ValDecl = ""; c.Prog.Files[fi].Decls[di].ValFile = 0 })
+			}
 			for k := range d.Fields {
 				k := k
 				add(func(c *Case) {
@@ -248,6 +271,73 @@ func candidates(cs *Case) []func(c *Case) {
 					c.Prog.Files[fi].Decls[di].Fields = append(fs[:k:k], fs[k+1:]...)
 				})
 			}
+		}
+	}
+	// canonical function names, literal patterns
+	ident := regexp.MustCompile(`[A-Za-z_][A-Za-z0-9_]*`)
+	canon := []string{"m0", "m1", "m2", "m3"}
+	usedFn := map[string]bool{}
+	var fnOrder []string
+	type sf struct{ s, f string }
+	var sfs []sf
+	for _, fi := range p.order() {
+		for _, s := range p.Files[fi].Services {
+			for _, fn := range s.Fns {
+				if !usedFn[fn.Name] {
+					usedFn[fn.Name] = true
+					fnOrder = append(fnOrder, fn.Name)
+				}
+				sfs = append(sfs, sf{s.Name, fn.Name})
+			}
+		}
+	}
+	for _, old := range fnOrder {
+		old := old
+		isCanon := false
+		for _, c := range canon {
+			if c == old {
+				isCanon = true
+			}
+		}
+		if isCanon {
+			continue
+		}
+		for _, nw := range canon {
+			if usedFn[nw] {
+				continue
+			}
+			nw := nw
+			add(func(c *Case) {
+				for a := range c.Prog.Files {
+					for b := range c.Prog.Files[a].Services {
+						for k := range c.Prog.Files[a].Services[b].Fns {
+							if c.Prog.Files[a].Services[b].Fns[k].Name == old {
+								c.Prog.Files[a].Services[b].Fns[k].Name = nw
+							}
+						}
+					}
+				}
+				for i, m := range c.Cfg.Methods {
+					c.Cfg.Methods[i] = ident.ReplaceAllStringFunc(m, func(s string) string {
+						if s == old {
+							return nw
+						}
+						return s
+					})
+				}
+			})
+			break
+		}
+	}
+	for i, m := range cs.Cfg.Methods {
+		i := i
+		literal := !strings.ContainsAny(m, "*^$|(\\[+?")
+		if literal && strings.Contains(m, ".") {
+			continue
+		}
+		for _, x := range sfs {
+			lit := x.s + "." + x.f
+			add(func(c *Case) { c.Cfg.Methods[i] = lit })
 		}
 	}
 	// simplify types: a container becomes its element type
@@ -360,6 +450,9 @@ func canonical(cs *Case) *Case {
 	for fi := range p.Files {
 		for di := range p.Files[fi].Decls {
 			p.Files[fi].Decls[di].Name = names[p.Files[fi].Decls[di].Name]
+			if v := p.Files[fi].Decls[di].ValDecl; v != "" {
+				p.Files[fi].Decls[di].ValDecl = names[v]
+			}
 		}
 		for si := range p.Files[fi].Services {
 			s := &p.Files[fi].Services[si]
